@@ -1,3 +1,4 @@
+import BoolFn.Proofs.Oracle3
 import BoolFn.Proofs.Oracle
 import BoolFn.Proofs.Table
 import BoolFn.Bdd
